@@ -34,7 +34,7 @@ KINDS = ['pass', 'fail', 'error', 'skip_dec', 'skip_cls', 'skip_setup',
 
 
 def _o_filter(case):
-    return case[0] <= 2 and len(case) == 8 and case[4] == 'both' and case[7] in ('', 'x')
+    return case[0] <= 2 and len(case) == 8 and case[4] == 'both' and case[7] in ('', 'x', 'D')
 
 
 ENV_PASSES = [{'name': 'python -O', 'argv': ['-O'], 'env': {}, 'filter': _o_filter}]
@@ -70,6 +70,14 @@ def cases(tier, seed):
                 for k in ('pass', 'fail', 'skip_dec', 'sub:1,0,1'):
                     for rep in (1, 2):
                         yield [n, g, kind, hm, side, [k, 'pass'], rep, '']
+    # formatter / verbosity / debugger modes around per-test hooks
+    for n, g, kind in _graphs(3):
+        for hm in (range(1, 1 << n) if n < 3 else [(1 << n) - 1]):
+            for k in ('pass', 'fail', 'skip_dec', 'skip_cls', 'skip_body'):
+                for mode in ('c', 'c+v3', 'c+v4+slow', 'v4', 'p', 'D'):
+                    if mode == 'D' and k == 'fail':
+                        continue         # (pdb would start)
+                    yield [n, g, kind, hm, 'both', [k, 'pass'], 1, mode]
     # -x: the test that stops the run still gets its testTearDown
     for n, g, kind in _graphs(2):
         for hm in range(1, 1 << n):
@@ -143,6 +151,13 @@ def build_spec(case):
         argv += ['-j2']
     if mode == 'x':
         argv += ['-x']
+    argv += {'c': ['-c'], 'c+v3': ['-c', '-vvv'], 'c+v4+slow': ['-c', '-vvvv', '--slow-test', '5'],
+             'v4': ['-vvvv'], 'p': ['-p'], 'D': ['-D']}.get(mode, [])
+    if mode == 'c+v4+slow':
+        for t in tests:
+            t['slowt'] = 30
+        for L in layers:
+            L['slow'] = 70
     return {'layers': layers, 'tests': tests}, argv
 
 
@@ -157,9 +172,55 @@ def run_case(case):
     sv = monitors.SpecView(spec)
     states, transitions = set(), set()
     viol = []
-    for clause, sig, detail in monitors.check_test_hooks(sv, res, states, transitions):
-        viol.append({'clause': clause, 'sig': sig,
-                     'detail': detail + '\nargv=%s spec=%s' % (argv, spec)})
+    if mode == 'D':
+        # post-mortem mode: the runner itself calls startTest / debug() /
+        # stopTest, TestCase.run (where the world marks the test bracket) is
+        # never entered.  Oracle on the hook events alone: they form properly
+        # nested, mirrored brackets, one per test and process
+        for vp in sorted({ev[0] for ev in res.trace}):
+            stack, brackets, opened = [], 0, []
+            bad = None
+            for ev in res.trace:
+                if ev[0] != vp or ev[1] != 'L' or ev[3] not in ('testSetUp', 'testTearDown') or ev[4] != '>':
+                    continue
+                if ev[3] == 'testSetUp':
+                    if stack and opened and opened[-1] == 'down':
+                        bad = 'testSetUp of %s while the previous bracket is still closing (open: %s)' % (ev[2], stack)
+                    stack.append(ev[2])
+                    opened.append('up')
+                else:
+                    if not stack or stack[-1] != ev[2]:
+                        bad = 'testTearDown of %s, innermost open layer is %s' % (ev[2], stack[-1:] or None)
+                        break
+                    stack.pop()
+                    opened.append('down')
+                    if not stack:
+                        brackets += 1
+                        opened = []
+            if stack and not bad:
+                bad = 'run ended with per-test hooks still open on %s' % stack
+            ntests = len([t for t in spec['tests']
+                          if vp == 0 or True])
+            if bad:
+                viol.append({'clause': 'unbalanced_or_not_mirrored', 'sig': {'k': 'D'},
+                             'detail': 'process %s: %s\nargv=%s spec=%s' % (vp, bad, argv, spec)})
+        nb = 0
+        depth = 0
+        for ev in res.trace:
+            if ev[1] == 'L' and ev[3] == 'testSetUp' and ev[4] == '>':
+                depth += 1
+            elif ev[1] == 'L' and ev[3] == 'testTearDown' and ev[4] == '>':
+                depth -= 1
+                if depth == 0:
+                    nb += 1
+        want = sum(1 for t in spec['tests'] if any(sv.has_hook(L, 'testSetUp') for L in sv.closure[t['l']]))
+        if nb != want * rep:
+            viol.append({'clause': 'testSetUp_missing', 'sig': {'k': 'D'},
+                         'detail': '%d complete hook brackets for %d tests on hook-bearing stacks\nargv=%s spec=%s' % (nb, want * rep, argv, spec)})
+    else:
+        for clause, sig, detail in monitors.check_test_hooks(sv, res, states, transitions):
+            viol.append({'clause': clause, 'sig': sig,
+                         'detail': detail + '\nargv=%s spec=%s' % (argv, spec)})
     if res.escaped:
         # containment is C04's business; here it only matters that the hooks
         # stayed balanced up to the abort, which the monitor already checked
